@@ -10,11 +10,12 @@ second run that must report nothing required and issue no write.
 import random
 
 from .. import dbrig, evocases, evorig, sigs
-from .c03 import initial_rollup, name_reuse, touches_renamed_model
+from .c03 import initial_rollup, name_reuse, touches_renamed_model  # noqa
 from .c11 import dangling
 
 F_OPT = 'F20'
 F_TABLE = 'F1'
+F_NOOP = 'F53'
 
 
 def gen_history(rng, n):
@@ -129,6 +130,7 @@ def run(ctx):
     nh = 16 if quick else 150
     done = tries = 0
     opt_w = None
+    noop_w = None
     while done < nh and tries < nh * 8 and ctx.time_left() > 40:
         tries += 1
         n = ctx.rng.randint(2, 3 if quick else 4)
@@ -197,14 +199,35 @@ def run(ctx):
                 ctx.count('path:%s' % path)
                 ctx.count('front_end:%s' % how)
                 r = dict(rep, start=i, path=path)
+                seg = [m for e in evos[i:] for m in e]
+                # batches in which a name changes existence more than once are mis-optimised (C03 finding
+                # F20): what the run then leaves behind is attributed to that finding, nothing else is
+                excused = (path == 'direct' and (name_reuse(seg) or touches_renamed_model(seg) or initial_rollup(seg))) \
+                    or any(name_reuse(e) or touches_renamed_model(e) for e in evos[i:])
+
+                def report(what):
+                    nonlocal opt_w
+                    if excused:
+                        ctx.count('excused_by_C03_F20')
+                        opt_w = opt_w or dict(r, observed=what)
+                    else:
+                        ctx.fail(None, what, r)
                 if st['labels'] != fresh['labels']:
-                    ctx.fail(None, 'recorded labels after upgrading from V%d (%s) are %r, fresh install has %r'
-                             % (i, path, st['labels'], fresh['labels']), r)
+                    missing = [l for l in fresh['labels'] if l not in st['labels']]
+                    # evolutions whose net effect on the models is empty (V_{k-1} and V_k are the same models)
+                    empty = ['e%d' % k for k in range(1, n + 1) if specs[k - 1] == specs[k]]
+                    what = ('recorded labels after upgrading from V%d (%s, %s) are %r, fresh install has %r'
+                            % (i, path, how, st['labels'], fresh['labels']))
+                    if how in ('evolve', 'migrate') and missing and set(missing) <= set(empty) and \
+                            set(st['labels']) <= set(fresh['labels']):
+                        noop_w = noop_w or dict(r, observed=what)
+                    else:
+                        ctx.fail(None, what, r)
                 if not st['sig_matches_models']:
-                    ctx.fail(None, 'after upgrading from V%d (%s) the stored signature differs from the models' % (i, path), r)
+                    report('after upgrading from V%d (%s) the stored signature differs from the models' % (i, path))
                 if req or not diff_empty or writes:
-                    ctx.fail(None, 'a second run after upgrading from V%d (%s) is not a no-op: required=%s, writes=%d'
-                             % (i, path, req, len(writes)), r)
+                    report('a second run after upgrading from V%d (%s) is not a no-op: required=%s, writes=%d'
+                           % (i, path, req, len(writes)))
                 sd = dbrig.schema_diff(st['schema'], fresh['schema'])
                 if sd:
                     from .c01 import classify
@@ -212,8 +235,8 @@ def run(ctx):
                     if all(fid is not None for fid, _ in kinds):
                         ctx.count('schema_differs_known_C01')
                     else:
-                        ctx.fail(None, 'upgrade from V%d (%s) and fresh install end in different schemas: %s'
-                                 % (i, path, [t for f, t in kinds if f is None][0][:160]), r)
+                        report('upgrade from V%d (%s) and fresh install end in different schemas: %s'
+                               % (i, path, [t for f, t in kinds if f is None][0][:160]))
             if failed:
                 break
         if failed:
@@ -238,6 +261,9 @@ def run(ctx):
                     else:
                         ctx.fail(None, 'stepwise and direct upgrades from V%d end differently (%s)'
                                  % (i, 'rows' if a['rows'] != b['rows'] else 'schema'), r)
+    if noop_w is not None:
+        ctx.fail(F_NOOP, 'the evolve/migrate commands skip a run whose pending evolutions have no net effect, so their '
+                 'labels are never recorded: ' + noop_w['observed'], noop_w)
     if opt_w is not None:
         ctx.fail(F_OPT, 'the direct (batched) path differs from the stepwise path for reasons recorded under C03', opt_w)
 
